@@ -12,7 +12,15 @@
 //! Oracle (independent of the Lean model, evaluated on the real `f64` answers):
 //!   t-digest: NaN iff no finite input; `min ≤ q̂ ≤ max` strictly (no tolerance); `q̂ = min` for q ≤ 0,
 //!   `q̂ = max` for q ≥ 1; `q̂` never decreases as q increases (grid); total weight = number of finite inputs;
-//!   the answer is unchanged when the non-finite inputs are removed from the request.
+//!   the answer is unchanged when the non-finite inputs are removed from the request; the centroids of the digest
+//!   that was queried are sorted by mean.
+//!   Every inversion of the estimate is classified on the REAL centroids of the digest that was queried
+//!   (`verif_state`; for `finish` the compressed copy, accepted only if `quantile` on it reproduces the answer bit
+//!   for bit; for pipelines the accumulator rebuilt in the engine's merge tree, same condition): kind `B` = the
+//!   covering centroid changes between the two grid points (signature of the known finding
+//!   `quantile-not-monotone-in-q`), `S` = same covering branch, `U` = unsorted centroids, `X` = digest unknown —
+//!   `S`/`U`/`X` have their own signatures, which are not known findings. The kind letters are part of the answer
+//!   line, so the Lean model (`TDigest.cover` on `Float`) has to agree with the classification as well.
 //!   KMV: heap = set = the k smallest distinct ranks; exact count while #distinct < k; `(k-1)/r_k` otherwise;
 //!   the estimate equals that of the sorted, de-duplicated, single-partition run (order / duplicates / partitioning).
 //!   Empirical only (statistical claims, not provable): rank error of the t-digest on large inputs, error band of KMV.
@@ -91,7 +99,14 @@ fn eval_td(c: &ApproxQuantiles<f64>, t: &Tree, vals: &[f64], pos: &mut usize) ->
 enum Fin { Aq, Raw, Med }
 impl Fin { fn s(self) -> &'static str { match self { Fin::Aq => "aq", Fin::Raw => "raw", Fin::Med => "med" } } }
 
-struct TdOut { est: Vec<f64>, state: (Vec<(f64, f64)>, f64, f64, f64), cdfs: Vec<f64> }
+/// `(centroids as (mean, weight), total_weight, min, max)` as returned by the `verif_state` hook
+type St = (Vec<(f64, f64)>, f64, f64, f64);
+
+/// `queried` = the state of the digest `quantile` was evaluated on: the merged accumulator itself for `raw`,
+/// its compressed copy for `aq` / `med` (`finish` compresses once more). The compressed copy is obtained through
+/// the public API only: `TDigest::new(δ).merge(&acc)` = take `acc`'s min/max/centroids/total and `compress()`.
+/// `None` = not known (a pipeline result that could not be re-derived from its merge tree).
+struct TdOut { est: Vec<f64>, state: St, cdfs: Vec<f64>, queried: Option<St> }
 
 fn real_td(delta: f64, fin: Fin, tree: &Tree, vals: &[f64], qs: &[f64], cdfs: &[f64]) -> Result<TdOut, String> {
     guarded(|| {
@@ -100,12 +115,20 @@ fn real_td(delta: f64, fin: Fin, tree: &Tree, vals: &[f64], qs: &[f64], cdfs: &[
         let acc = eval_td(&c, tree, vals, &mut pos);
         let state = acc.verif_state();
         let cd: Vec<f64> = cdfs.iter().map(|v| acc.cdf(*v)).collect();
+        let qs_eff: Vec<f64> = if fin == Fin::Med { vec![0.5] } else { qs.to_vec() };
+        let (queried, requery) = if fin == Fin::Raw { (state.clone(), acc.quantiles(&qs_eff)) } else {
+            let mut d = TDigest::new(delta);
+            d.merge(&acc);
+            (d.verif_state(), d.quantiles(&qs_eff))
+        };
         let est = match fin {
             Fin::Aq => c.finish(acc),
             Fin::Raw => acc.quantiles(qs),
             Fin::Med => vec![CombineFn::<f64, TDigest, f64>::finish(&ApproxMedian::<f64>::new(delta), acc)],
         };
-        TdOut { est, state, cdfs: cd }
+        // the centroids are only evidence for an answer that `quantile` on them reproduces bit for bit
+        let same = requery.len() == est.len() && requery.iter().zip(&est).all(|(a, b)| a.to_bits() == b.to_bits() || (a.is_nan() && b.is_nan()));
+        TdOut { est, state, cdfs: cd, queried: if same { Some(queried) } else { None } }
     })
 }
 
@@ -115,6 +138,42 @@ fn inversions(qs: &[f64], est: &[f64]) -> Vec<usize> {
         if !est[i].is_nan() && !est[i + 1].is_nan() && qs[i] <= qs[i + 1] && est[i] > est[i + 1] { v.push(i); }
     }
     v
+}
+
+/// which branch of `TDigest::quantile` answers `q` on the digest `st` (re-derivation of the walk, for attribution only)
+#[derive(Clone, Copy, PartialEq, Debug)]
+enum Cover { Min, Max, At(usize), Past }
+
+fn cover(st: &St, q: f64) -> Cover {
+    let (cs, total, _, _) = st;
+    let q = if q.is_nan() { q } else { q.clamp(0.0, 1.0) };
+    if (q - 0.0).abs() <= f64::EPSILON || cs.len() == 1 { return Cover::Min; }
+    if (q - 1.0).abs() <= f64::EPSILON { return Cover::Max; }
+    let target = q * total;
+    let mut cum = 0.0;
+    for (i, (_, w)) in cs.iter().enumerate() {
+        let next = cum + w;
+        if next >= target { return Cover::At(i); }
+        cum = next;
+    }
+    Cover::Past
+}
+
+fn sorted_by_mean(st: &St) -> bool { st.0.windows(2).all(|w| w[0].0 <= w[1].0) }
+
+/// Where does the inversion between the grid points `q1 ≤ q2` sit?
+///   `B` — the centroids are sorted and the centroid that covers `q·W` CHANGES between the two points: the
+///         saw-tooth of the known finding (interpolation between the neighbours' means restarts at a boundary);
+///   `S` — sorted centroids, both points are answered by the same branch / the same centroid: NOT the known finding
+///         (in exact arithmetic impossible: Lean `quantile_monotone_same_cover`);
+///   `U` — `quantile` walked centroids that are not sorted by mean: NOT the known finding;
+///   `X` — the digest that was queried is not known.
+fn inv_kind(queried: Option<&St>, q1: f64, q2: f64) -> char {
+    match queried {
+        None => 'X',
+        Some(st) if !sorted_by_mean(st) => 'U',
+        Some(st) => if cover(st, q1) == cover(st, q2) { 'S' } else { 'B' },
+    }
 }
 
 fn td_answer(o: &TdOut, qs_eff: &[f64], full: bool) -> String {
@@ -129,7 +188,7 @@ fn td_answer(o: &TdOut, qs_eff: &[f64], full: bool) -> String {
     for d in &o.cdfs { s.push(' '); s.push_str(&ft(*d)); }
     s.push_str(" | INV");
     let inv = inversions(qs_eff, &o.est);
-    if inv.is_empty() { s.push_str(" -"); } else { for i in inv { s.push_str(&format!(" I{i}")); } }
+    if inv.is_empty() { s.push_str(" -"); } else { for i in inv { s.push_str(&format!(" {}{i}", inv_kind(o.queried.as_ref(), qs_eff[i], qs_eff[i + 1]))); } }
     s
 }
 
@@ -155,7 +214,6 @@ fn td_oracle(cx: &mut Ctx, i: usize, delta: f64, fin: Fin, tree: &Tree, vals: &[
             cx.oracle_fail(i, "tdigest-nan-on-nonempty-input", format!("q={q:?} est=NaN with {n} finite inputs"));
             continue;
         }
-        if q.is_nan() { continue; }
         if !(mn <= *e && *e <= mx) {
             cx.oracle_fail(i, "tdigest-estimate-outside-min-max", format!("q={q:?} est={e:?} min={mn:?} max={mx:?} excess={:e}", if *e > mx { *e - mx } else { mn - *e }));
         }
@@ -167,10 +225,22 @@ fn td_oracle(cx: &mut Ctx, i: usize, delta: f64, fin: Fin, tree: &Tree, vals: &[
         }
     }
     let inv = inversions(&qs_eff, &o.est);
-    if let Some(j) = inv.first() {
+    if !inv.is_empty() {
         cx.count("tdigest:non-monotone cases");
-        cx.oracle_fail(i, "quantile-not-monotone-in-q",
-            format!("{} inversions; first: q={:?} -> {:?} but q={:?} -> {:?}", inv.len(), qs_eff[*j], o.est[*j], qs_eff[*j + 1], o.est[*j + 1]));
+        // one failure per kind of inversion; only kind B (at a centroid boundary of sorted centroids) carries the
+        // signature of the known finding
+        for (kind, sig) in [('B', "quantile-not-monotone-in-q"),
+                            ('S', "quantile-decreases-inside-one-centroid"),
+                            ('U', "quantile-decreases-on-unsorted-centroids"),
+                            ('X', "quantile-decreases-unattributed")] {
+            let js: Vec<usize> = inv.iter().copied().filter(|j| inv_kind(o.queried.as_ref(), qs_eff[*j], qs_eff[*j + 1]) == kind).collect();
+            if let Some(j) = js.first() {
+                cx.count(&format!("tdigest:inversions of kind {kind}"));
+                let cov = o.queried.as_ref().map(|st| format!("{:?} -> {:?}, {} centroids", cover(st, qs_eff[*j]), cover(st, qs_eff[*j + 1]), st.0.len())).unwrap_or_default();
+                cx.oracle_fail(i, sig, format!("{} inversions of kind {kind}; first: q={:?} -> {:?} but q={:?} -> {:?} (covering branch {cov})",
+                    js.len(), qs_eff[*j], o.est[*j], qs_eff[*j + 1], o.est[*j + 1]));
+            }
+        }
     }
     // non-finite inputs are ignored: same request without them gives the same answer
     if n != vals.len() {
@@ -202,6 +272,16 @@ fn one_td(cx: &mut Ctx, delta: f64, fin: Fin, tree: &Tree, vals: &[f64], qs: &[f
             cx.count(&format!("tdigest:n~{}", bucket(vals.len())));
             cx.count(&format!("tdigest:leaves~{}", bucket(tree.leaves())));
             cx.count(&format!("tdigest:centroids~{}", bucket(o.state.0.len())));
+            match &o.queried {
+                None => cx.oracle_fail(i, "tdigest-finish-differs-from-compress-then-quantile", format!("est={:?}", o.est)),
+                Some(st) => if !sorted_by_mean(st) {
+                    // the walk of `quantile` / `cdf` presupposes centroids sorted by mean (anchor: "sorted weighted
+                    // centroids after compress()"; Lean, exact arithmetic: `tdigest_sorted_after_compress`, `tdigest_sorted_always`)
+                    cx.count(&format!("tdigest:queried digest not sorted by mean (fin={})", fin.s()));
+                    let j = st.0.windows(2).position(|w| !(w[0].0 <= w[1].0)).unwrap_or(0);
+                    cx.oracle_fail(i, "tdigest-queried-centroids-not-sorted-by-mean", format!("fin={} centroid {j} mean {:?} > centroid {} mean {:?} ({} centroids)", fin.s(), st.0[j].0, j + 1, st.0[j + 1].0, st.0.len()));
+                }
+            }
             td_oracle(cx, i, delta, fin, tree, vals, qs, &o, true);
         }
         Err(e) => {
@@ -366,8 +446,20 @@ fn pipe_td_case(cx: &mut Ctx, delta: f64, fin: Fin, tree: &Tree, vals: &[f64], q
     cx.count(label.split(':').take(2).collect::<Vec<_>>().join(":").as_str());
     match res {
         Ok(est) => {
-            let o = TdOut { est, state: (vec![], 0.0, 0.0, 0.0), cdfs: vec![] };
+            // the digest the pipeline queried is not observable; re-derive it by running the real accumulator
+            // code in the merge tree the engine is documented to use, and accept its centroids as evidence only
+            // if that reproduces the pipeline's answer bit for bit
+            let rebuilt = real_td(delta, fin, tree, vals, qs, &[]).ok();
+            let queried = rebuilt.and_then(|r| {
+                let same = r.est.len() == est.len() && r.est.iter().zip(&est).all(|(a, b)| a.to_bits() == b.to_bits() || (a.is_nan() && b.is_nan()));
+                if same { r.queried } else { None }
+            });
+            if queried.is_none() { cx.count("tdigest:pipeline answer not reproduced by its merge tree"); }
+            let o = TdOut { est, state: (vec![], 0.0, 0.0, 0.0), cdfs: vec![], queried };
             let i = cx.case(req, td_answer(&o, &qs_eff, false), vals.len() >= 2);
+            if o.queried.is_none() {
+                cx.oracle_fail(i, "tdigest-pipeline-differs-from-its-merge-tree", format!("{label}: est={:?}", o.est));
+            }
             td_oracle(cx, i, delta, fin, tree, vals, qs, &o, false);
         }
         Err(e) => {
@@ -496,8 +588,12 @@ fn pipe_kmv_keyed(cx: &mut Ctx, k: usize, rows: &[(u32, u64)], mode: Mode) {
 /* ------------------------------------------------------------------ generators */
 
 fn gen_values(rng: &mut Rng, n: usize) -> Vec<f64> {
-    let style = rng.below(12);
+    let style = rng.below(16);
     let mut v: Vec<f64> = (0..n).map(|i| match style {
+        12 => f64::from_bits(rng.next_u64() >> 12) * if rng.chance(1, 2) { -1.0 } else { 1.0 }, // subnormals (exponent field 0)
+        13 => rng.range(-6, 6) as f64 * 5e-324,                            // the smallest subnormals, ties, ±0
+        14 => *rng.pick(&[0.1, 0.2, 0.3, 0.7, 0.1, 0.3]),                   // inexact decimals, heavy ties (rounding of merged means)
+        15 => { let u = (rng.next_u64() >> 11) as f64 / (1u64 << 53) as f64; (0.9 + 0.1 * u) * f64::MAX * if rng.chance(1, 3) { -1.0 } else { 1.0 } } // sums and differences overflow to ±inf
         0 => i as f64 + 1.0,                                              // ramp
         1 => rng.range(0, 3) as f64,                                       // heavy ties
         2 => rng.range(-5, 5) as f64 * 0.1,                                // small decimals, ties
@@ -509,7 +605,8 @@ fn gen_values(rng: &mut Rng, n: usize) -> Vec<f64> {
         8 => -((rng.next_u64() % 1000) as f64).exp2() % 1e10,              // negative, skewed
         9 => { let u = (rng.next_u64() >> 11) as f64 / (1u64 << 53) as f64; -(1.0 - u).ln() } // exponential
         10 => *rng.pick(&[f64::MAX, f64::MIN, f64::MIN_POSITIVE, 5e-324, -5e-324, 0.0, -0.0, 1.0, -1.0, f64::MAX / 2.0, f64::MIN / 2.0, 1.7e308, -1.7e308]),
-        _ => f64::from_bits(rng.next_u64()),                               // arbitrary bit patterns (may be NaN/inf)
+        11 => f64::from_bits(rng.next_u64()),                              // arbitrary bit patterns (may be NaN/inf)
+        _ => unreachable!(),
     }).collect();
     // sprinkle non-finite inputs
     if rng.chance(1, 5) && n > 0 {
@@ -534,7 +631,9 @@ fn gen_delta(rng: &mut Rng) -> f64 {
 }
 
 fn gen_qs(rng: &mut Rng) -> Vec<f64> {
-    match rng.below(6) {
+    match rng.below(8) {
+        6 => vec![f64::NEG_INFINITY, -1e300, f64::NAN, 0.0, 0.3, f64::NAN, 0.6, 1.0, 1e300, f64::INFINITY, -f64::NAN],
+        7 => { let mut v = grid(10); let i = rng.below(v.len()); v[i] = *rng.pick(&[f64::NAN, f64::INFINITY, f64::NEG_INFINITY]); v }
         0 => grid(100),
         1 => grid(20),
         2 => vec![0.0, 0.25, 0.5, 0.75, 1.0],
@@ -550,7 +649,8 @@ fn gen_cdfs(rng: &mut Rng, vals: &[f64]) -> Vec<f64> {
         if !vals.is_empty() && rng.chance(2, 3) {
             let x = *rng.pick(vals);
             if x.is_finite() { v.push(if rng.chance(1, 2) { x } else { x * 0.5 + 0.25 }); }
-        } else { v.push(rng.range(-3, 12) as f64 * 0.5); }
+        } else if rng.chance(1, 6) { v.push(*rng.pick(&[f64::NAN, f64::INFINITY, f64::NEG_INFINITY, 1e308, -1e308, 5e-324, 0.0, -0.0])); }
+        else { v.push(rng.range(-3, 12) as f64 * 0.5); }
     }
     v
 }
@@ -569,11 +669,18 @@ fn rank_error(sorted: &[f64], est: f64, q: f64) -> f64 {
     if q < lo { lo - q } else if q > hi { q - hi } else { 0.0 }
 }
 
+/// Empirical rank-error bounds per input distribution (uniform, exponential, cubic = extremely dense around the
+/// median, 50 distinct values with ties), for δ ≥ 100, n ≥ 5000, 1..64 partitions. Observed worst over seeds 1..6
+/// (thorough): 0.0010, 0.0008, 0.0136, 0.0087; quick (n = 20000): 0.0022, 0.0009. The documented accuracy is
+/// "typically within 1-2%" (`ApproxQuantiles`), which only the cubic distribution comes close to.
+const RANK_BOUND: [f64; 4] = [0.005, 0.005, 0.02, 0.015];
+
 fn empirical(cx: &mut Ctx) {
     let thorough = cx.tier != Tier::Quick;
     let nmax = if thorough { 100_000 } else { 20_000 };
     let qs = vec![0.01, 0.05, 0.1, 0.25, 0.5, 0.75, 0.9, 0.95, 0.99];
     let mut worst: f64 = 0.0;
+    let mut worst_by_dist = [0.0f64; 4];
     let dists = if thorough { 4 } else { 2 };
     for dist in 0..dists {
         // (the digest keeps ~n/(δ/8) centroids, so a run costs O(n²/δ): only two distributions at full size)
@@ -595,17 +702,19 @@ fn empirical(cx: &mut Ctx) {
                     for (q, e) in qs.iter().zip(&est) {
                         let err = rank_error(&sorted, *e, *q);
                         worst = worst.max(err);
+                        worst_by_dist[dist] = worst_by_dist[dist].max(err);
                         cx.count("empirical:tdigest rank-error evaluations");
-                        if err > 0.02 {
+                        if err > RANK_BOUND[dist] {
                             let i = cx.case(format!("TDIGEST {} aq q L0 - - -", hx(delta)), "Q".into(), false);
-                            cx.oracle_fail(i, "tdigest-rank-error-above-2-percent(empirical)", format!("dist={dist} order={order} n={n} δ={delta} parts={parts} q={q} est={e} rank error={err:.4}"));
+                            cx.oracle_fail(i, "tdigest-rank-error-above-bound(empirical)", format!("dist={dist} order={order} n={n} δ={delta} parts={parts} q={q} est={e} rank error={err:.4} bound={}", RANK_BOUND[dist]));
                         }
                     }
                 }
             }
         }
     }
-    cx.notes.push(format!("empirical (not a theorem): worst t-digest rank error {worst:.5} over n≤{nmax} inputs, δ≥100, 1..64 partitions (bound checked: 0.02)"));
+    cx.notes.push(format!("empirical (not a theorem): worst t-digest rank error by distribution (uniform, exponential, cubic, 50 ties): {worst_by_dist:.5?}"));
+    cx.notes.push(format!("empirical (not a theorem): worst t-digest rank error {worst:.5} over n≤{nmax} inputs, δ≥100, 1..64 partitions (bounds checked per distribution: {RANK_BOUND:?})"));
     // KMV error band: |est/d - 1| ≤ 4/sqrt(k) for d ≫ k
     let seeds = if thorough { 200 } else { 40 };
     let mut worst_rel: f64 = 0.0;
@@ -669,6 +778,26 @@ pub fn run(cx: &mut Ctx) {
     one_td(cx, 100.0, Fin::Aq, &Tree::L(0), &[], &[0.0, 0.5, 1.0], &[1.0]);
     one_td(cx, 100.0, Fin::Med, &Tree::L(2), &[f64::NAN, f64::INFINITY], &[], &[]);
     one_td(cx, 100.0, Fin::Aq, &Tree::L(3), &[f64::NAN, 5.0, f64::NEG_INFINITY], &[0.0, 0.5, 1.0], &[]);
+    // answers that are literally inf / NaN, and subnormal ones (compared literally / to 1e-12 relative by ibcheck):
+    // cdf overflows: (1e308 − (−1.7e308)) = inf, inf / inf = NaN
+    one_td(cx, 100.0, Fin::Aq, &Tree::B(2), &[-1.7e308, 1.7e308], &grid(20), &[1e308, -1e308, 0.0, f64::NAN, f64::INFINITY, f64::NEG_INFINITY]);
+    one_td(cx, 100.0, Fin::Raw, &Tree::B(3), &[-1.7e308, 1.0, 1.7e308], &[0.2, 0.4, 0.6, 0.8], &[1.5e308, -1.5e308, 0.5]);
+    // merged mean overflows before the division (mul_add → ±inf, clamped back to max/min): δ = 1 merges everything
+    one_td(cx, 1.0, Fin::Aq, &Tree::M(Box::new(Tree::L(3)), Box::new(Tree::L(3))), &[1.7e308, 1.6e308, 1.5e308, 1.7e308, 1.6e308, 1.5e308], &grid(20), &[1.55e308]);
+    one_td(cx, 1.0, Fin::Aq, &Tree::L(6), &[-1.7e308, -1.6e308, -1.5e308, -1.7e308, -1.6e308, -1.5e308], &grid(20), &[-1.55e308]);
+    // subnormal values, means and interpolants; total weight of the smallest subnormals
+    one_td(cx, 100.0, Fin::Aq, &Tree::L(5), &[5e-324, 1.5e-323, 1e-323, 0.0, -5e-324], &grid(20), &[1e-323, 7e-324, 0.0, -0.0]);
+    one_td(cx, 2.0, Fin::Aq, &Tree::M(Box::new(Tree::B(4)), Box::new(Tree::L(4))), &[5e-324, 1e-323, 5e-324, 1.5e-323, 2.5e-323, 1e-323, 2e-323, 5e-324], &grid(20), &[1.2e-323]);
+    one_td(cx, 100.0, Fin::Raw, &Tree::L(4), &[f64::MIN_POSITIVE, f64::MIN_POSITIVE / 2.0, 2.0 * f64::MIN_POSITIVE, 3e-310], &grid(100), &[2.3e-308]);
+    // unusual q: NaN (falls through to max, or min for a single centroid), ±inf (clamped)
+    one_td(cx, 100.0, Fin::Raw, &Tree::L(3), &[1.0, 2.0, 3.0], &[f64::NAN, f64::NEG_INFINITY, f64::INFINITY, -f64::NAN, 0.5], &[]);
+    one_td(cx, 100.0, Fin::Aq, &Tree::L(1), &[7.0], &[f64::NAN, f64::NEG_INFINITY, f64::INFINITY], &[]);
+    // quantile / cdf straight after `add`, values arriving out of order (direct use of the public TDigest):
+    // the walk must see the centroids in order of mean
+    one_td(cx, 100.0, Fin::Raw, &Tree::L(3), &[3.0, 1.0, 2.0], &[0.5, 0.6], &[1.5, 2.5]);
+    one_td(cx, 100.0, Fin::Raw, &Tree::L(100), &(1..=100).rev().map(f64::from).collect::<Vec<_>>(), &grid(20), &[25.0, 50.0]);
+    // inexact decimals with ties, small δ: the merged mean of equal values is rounded
+    one_td(cx, 2.0, Fin::Aq, &Tree::L(9), &[0.1, 0.1, 0.1, 0.1, 0.1, 0.1, 0.1, 0.3, 0.3], &grid(100), &[0.1]);
     one_kmv(cx, 4, false, &Tree::L(6), &[0.5, 0.25, 0.5, 0.75, 0.125, 0.25]);
     one_kmv(cx, 2, true, &Tree::M(Box::new(Tree::L(3)), Box::new(Tree::L(3))), &[0.5, 0.25, 0.75, 0.125, 0.25, 0.9]);
     one_kmv(cx, 0, true, &Tree::L(2), &[0.5, 0.25]);
@@ -720,6 +849,39 @@ pub fn run(cx: &mut Ctx) {
             }
         }
         cx.exhaustive_blocks.push(format!("KMV: all rank sequences of length <= {m} over 4 ranks x all merge trees with <= 3 leaves x k in {{1,2,3}} ({cnt} accumulators)"));
+    }
+
+    /* (2b) extreme compression settings at sizes that cross their compress thresholds, unusual q values */
+    {
+        let thorough = cx.tier != Tier::Quick;
+        let mut cnt = 0;
+        let special_qs = vec![f64::NEG_INFINITY, -1.0, f64::NAN, 0.0, 1e-17, 0.1, 0.25, 0.5, 0.75, 0.9, 1.0 - 3e-16, 1.0, 2.0, f64::INFINITY, f64::NAN];
+        for &delta in &[0.0, 0.5, -1.0, 1000.0, f64::INFINITY, f64::NEG_INFINITY, f64::NAN, f64::MIN_POSITIVE, 1e308, 1.0, 2.0] {
+            let sizes: Vec<usize> = if delta == 1000.0 { if thorough { vec![1, 7, 300, 2100, 2600, 5000] } else { vec![7, 2100] } }
+                                    else if thorough { vec![1, 2, 3, 7, 60, 400, 1500] } else { vec![1, 2, 7, 60, 400] };
+            for &n in &sizes {
+                let mut sets: Vec<Vec<f64>> = vec![
+                    (0..n).map(|i| i as f64 + 1.0).collect(),
+                    (0..n).rev().map(|i| i as f64 * 0.1).collect(),
+                    (0..n).map(|i| ((i * 7919) % 101) as f64 * 0.1 - 3.0).collect(),
+                ];
+                for _ in 0..2 { sets.push(gen_values(&mut cx.rng, n)); }
+                for (si, vals) in sets.iter().enumerate() {
+                    let a = cx.rng.below(n + 1);
+                    let b = cx.rng.below(n - a + 1);
+                    let trees = [Tree::L(n), Tree::B(n),
+                        Tree::M(Box::new(Tree::L(a)), Box::new(Tree::L(n - a))),
+                        Tree::M(Box::new(Tree::M(Box::new(Tree::B(a)), Box::new(Tree::L(b)))), Box::new(Tree::L(n - a - b)))];
+                    let tree = &trees[(si + cnt) % 4];
+                    let fin = match cnt % 4 { 0 => Fin::Raw, 1 => Fin::Med, _ => Fin::Aq };
+                    let qs = if cnt % 3 == 0 { special_qs.clone() } else { grid(20) };
+                    let cdfs = gen_cdfs(&mut cx.rng, vals);
+                    one_td(cx, delta, fin, tree, vals, &qs, &cdfs);
+                    cnt += 1;
+                }
+            }
+        }
+        cx.exhaustive_blocks.push(format!("t-digest: δ in {{0, 0.5, -1, 1000, ±inf, NaN, 2.2e-308, 1e308, 1, 2}} x sizes up to {} ({} for δ=1000, i.e. past the 2δ compress threshold) x ramp / reversed / scrambled-ties / 2 random value sets, rotating over 4 tree shapes, raw/med/aq and a q list with NaN, ±inf, out-of-range and ε-close-to-end-point values ({cnt} digests; systematic, not exhaustive)", if thorough { 1500 } else { 400 }, if thorough { 5000 } else { 2100 }));
     }
 
     marks.push(("exhaustive".into(), t0.elapsed().as_secs_f64()));
